@@ -24,7 +24,7 @@ def prologue(f):
             break
         if isinstance(st, ast.Expr) and isinstance(st.value, ast.Constant):
             continue
-        out.append(re.sub(r"__i\d+\b", "__i", unparse(st)))      # expansion temporaries are numbered per call site
+        out.append(re.sub(r"__i\d*\b", "", unparse(st)))      # expansion temporaries are numbered per call site
     return tuple(out)
 
 
